@@ -1,10 +1,10 @@
 SPECIFICATION GSpec
 CONSTANTS
-  Lens <- GLens
+  Lens <- GLensQuick
   Slacks <- GSlacks
   Dense = TRUE
   Focus = FALSE
   Rich = TRUE
-VIEW EdgeView
-INVARIANT EmitAll
+VIEW AbsView
+ACTION_CONSTRAINT EmitEdge
 CHECK_DEADLOCK FALSE
